@@ -98,86 +98,6 @@ def DynTotal(c, D, cpd):
 # ----------------------------------------------------------------------------- component records
 
 
-@contract("mxlpy.types:Derived.calculate")
-class Derived_calculate:
-    requires = lambda self, args: all_in(self.args, args)
-    ensures = lambda self, args, result: result == apply(self.fn, [args[a] for a in self.args])
-    modifies = lambda self, args: []
-    opts = {"allocates": False}
-
-
-@contract("mxlpy.types:Derived.calculate_inpl")
-class Derived_calculate_inpl:
-    requires = lambda self, name, args: all_in(self.args, args)
-    ensures = lambda self, name, args, result: [
-        vals(args) == store(old(vals(args)), name, apply(self.fn, [old(args[a]) for a in self.args])),
-        dom(args) == store(old(dom(args)), name, True),
-        keys(args) == (old(keys(args)) if old(name in args) else old(keys(args)) + [name]),
-    ]
-    modifies = lambda self, name, args: [args]
-    opts = {"allocates": False}
-
-
-@contract("mxlpy.types:Reaction.calculate")
-class Reaction_calculate:
-    requires = lambda self, args: all_in(self.args, args)
-    ensures = lambda self, args, result: result == apply(self.fn, [args[a] for a in self.args])
-    modifies = lambda self, args: []
-    opts = {"allocates": False}
-
-
-@contract("mxlpy.types:Reaction.calculate_inpl")
-class Reaction_calculate_inpl:
-    requires = lambda self, name, args: all_in(self.args, args)
-    ensures = lambda self, name, args, result: [
-        vals(args) == store(old(vals(args)), name, apply(self.fn, [old(args[a]) for a in self.args])),
-        dom(args) == store(old(dom(args)), name, True),
-        keys(args) == (old(keys(args)) if old(name in args) else old(keys(args)) + [name]),
-    ]
-    modifies = lambda self, name, args: [args]
-    opts = {"allocates": False}
-
-
-@contract("mxlpy.types:InitialAssignment.calculate")
-class IA_calculate:
-    requires = lambda self, args: all_in(self.args, args)
-    ensures = lambda self, args, result: result == apply(self.fn, [args[a] for a in self.args])
-    modifies = lambda self, args: []
-    opts = {"allocates": False}
-
-
-@contract("mxlpy.types:InitialAssignment.calculate_inpl")
-class IA_calculate_inpl:
-    requires = lambda self, name, args: all_in(self.args, args)
-    ensures = lambda self, name, args, result: [
-        vals(args) == store(old(vals(args)), name, apply(self.fn, [old(args[a]) for a in self.args])),
-        dom(args) == store(old(dom(args)), name, True),
-        keys(args) == (old(keys(args)) if old(name in args) else old(keys(args)) + [name]),
-    ]
-    modifies = lambda self, name, args: [args]
-    opts = {"allocates": False}
-
-
-@contract("mxlpy.types:Readout.calculate")
-class Readout_calculate:
-    requires = lambda self, args: all_in(self.args, args)
-    ensures = lambda self, args, result: result == apply(self.fn, [args[a] for a in self.args])
-    modifies = lambda self, args: []
-    opts = {"allocates": False}
-
-
-@contract("mxlpy.types:Readout.calculate_inpl")
-class Readout_calculate_inpl:
-    requires = lambda self, name, args: all_in(self.args, args)
-    ensures = lambda self, name, args, result: [
-        vals(args) == store(old(vals(args)), name, apply(self.fn, [old(args[a]) for a in self.args])),
-        dom(args) == store(old(dom(args)), name, True),
-        keys(args) == (old(keys(args)) if old(name in args) else old(keys(args)) + [name]),
-    ]
-    modifies = lambda self, name, args: [args]
-    opts = {"allocates": False}
-
-
 # ----------------------------------------------------------------------------- model
 
 
